@@ -220,7 +220,8 @@ class LazyCall:
         return f"{self.callee}({', '.join(args + kwargs)})"
 
     def __hash__(self):
-        return hash((self.callee, *self.args, *self.kwargs))
+        # Keyword arguments are compared as a dict, so their order must not enter the hash
+        return hash((self.callee, *self.args, frozenset(self.kwargs)))
 
     def __eq__(self, other):
         return (
